@@ -17,7 +17,7 @@ Open Scope nat_scope.
 Inductive ctr := CNum | CStr | CBool | CDyn | CArr (c : ctr).
 
 (* field metadata: (optional?, pending contracts) *)
-Definition fmeta : Type := bool * list ctr.
+Notation fmeta := (bool * list ctr)%type (only parsing).
 
 Inductive xv :=
 | XNull
@@ -30,8 +30,8 @@ Inductive xv :=
 | XRec (fs : list (string * (fmeta * option xv)))
 | XBot.
 
-Definition xfield : Type := fmeta * option xv.
-Definition clo : Type := list ctr * xv.          (* a value with contracts still to be applied *)
+Notation xfield := ((bool * list ctr) * option xv)%type (only parsing).
+Notation clo := (list ctr * xv)%type (only parsing).   (* a value with contracts still to be applied *)
 
 (* ---- applying a contract to a value in weak head normal form *)
 Definition check (c : ctr) (w : xv) : res xv :=
